@@ -12,6 +12,8 @@ OpsQ == OpsOk(OpsQuick)
 BasesQ == { Base(d, 181, 8, e, sp, 5, 4, ra, rc) : d \in {"big", "little"}, e \in {"def"}, sp \in BOOLEAN, ra \in BOOLEAN, rc \in BOOLEAN }
           \cup { Base(d, 11, 4, e, FALSE, 0, 4, ra, rc) : d \in {"big"}, e \in {"def", "little"}, ra \in BOOLEAN, rc \in BOOLEAN }
           \cup { Base("little", 2652, 12, e, TRUE, 2, 3, FALSE, TRUE) : e \in {"def", "big"} }
+          \cup { Base(d, 181, 8, e, TRUE, 2748, 12, FALSE, FALSE) : d \in {"big", "little"}, e \in {"def", "big", "little"} }
+          \cup { Base(d, 181, 8, e, TRUE, 4660, 16, TRUE, FALSE) : d \in {"big", "little"}, e \in {"def", "big", "little"} }
 BasesT == { Base(d, v[1], v[2], e, sp, 5, 4, ra, rc) : d \in {"big", "little"}, v \in {<<181, 8>>, <<11, 4>>, <<2652, 12>>, <<46261, 16>>},
                 e \in {"def", "big", "little"}, sp \in BOOLEAN, ra \in BOOLEAN, rc \in BOOLEAN }
 =============================================================================
